@@ -489,6 +489,18 @@ class FuncTypestate(object):
             d = self.eng.derived_release(name, self.f)
             if d is not None:
                 idx, kinds = d, None
+            # a helper that releases several of its arguments (`free_both(P, Q)`)
+            for mi in self.eng._rel_multi.get(name, []):
+                if mi < len(vals):
+                    vm = vals[mi]
+                    if vm and vm[0] == 'rid':
+                        stm, kindm = s.r.get(vm[1], (None, None))
+                        if stm == RELEASED:
+                            self.report('double-release', e, vm[1], dict(at=e.loc))
+                        elif stm in (LIVE, ESCAPED):
+                            s.r[vm[1]] = (RELEASED, kindm)
+            if self.eng._rel_multi.get(name):
+                return None
             # a helper that releases the elements of arrays handed to it
             for ei in self.eng.derived_release_elems(name, self.f):
                 if ei < len(args):
@@ -685,6 +697,7 @@ class ResourceEngine(object):
         self.derived = self._derive_allocators()
         self.n_acquire_sites = set()
         self._rel_cache = {}
+        self._rel_multi = {}
         self._esc_cache = {}
 
     def _derive_allocators(self):
@@ -721,6 +734,8 @@ class ResourceEngine(object):
             idx = sorted(set(rt[1] for (rt, p) in S.frees if rt[0] == 'p' and p == 'hdr'))
             if len(idx) == 1:
                 r = idx[0]
+            elif len(idx) > 1:
+                self._rel_multi[name] = idx
         self._rel_cache[k] = r
         return r
 
@@ -843,6 +858,12 @@ def _npp(e, fs, depth=0):
         if d is not None and strip(d, casts=True).kind in ('MemberExpr', 'DeclRefExpr', 'UnaryOperator'):
             return _npp(d, fs, depth + 1)
     if e.kind == 'MemberExpr':
+        b0 = strip(e.kids[0], casts=True)
+        if e.arrow and b0 is not None and b0.kind == 'BinaryOperator' and b0.op == '+':
+            # (X + i)->f  is  X[i].f
+            for (pt, ix) in ((b0.kids[0], b0.kids[1]), (b0.kids[1], b0.kids[0])):
+                if type_is_pointer(strip(pt, casts=True).type or ''):
+                    return _npp(pt, fs, depth) + '[' + pp(strip(ix, casts=True)) + '].' + (e.name or '?')
         b = _npp(e.kids[0], fs, depth)
         if e.arrow and b.startswith('&'):
             return b[1:] + '.' + (e.name or '?')          # (&X[i])->f  is  X[i].f
